@@ -275,18 +275,22 @@ func runInner(t *testing.T, in input) emit.Case {
 
 	var rows [][]uint64
 	var opsS []string
-	older := false
-	var last uint64
-	hasLast := false
+	// what went wrong, from the observations alone (first failure class seen wins)
+	sig := ""
+	setSig := func(s string) {
+		if sig == "" {
+			sig = s
+		}
+	}
+	curW := in.W0
+	var prevLatest uint64
+	hasPrevLatest := false
 	for _, o := range in.Ops {
 		var opErr uint64
+		sameWindowRestart := false
 		switch o.K {
 		case "notify":
 			pb := pool[[2]uint64{o.H, o.V}]
-			if hasLast && o.H < last {
-				older = true
-			}
-			last, hasLast = o.H, true
 			if err := ix.Notify(ctx, pb.eb); err != nil {
 				opErr = 1
 			}
@@ -300,6 +304,8 @@ func runInner(t *testing.T, in input) emit.Case {
 				panic(err) // windows are always valid; a failure here means the store is unusable
 			}
 			ix = n
+			sameWindowRestart = o.W == curW
+			curW = o.W
 			opsS = append(opsS, fmt.Sprintf("(1,%d)", o.W))
 		default:
 			panic("bad op")
@@ -309,16 +315,30 @@ func runInner(t *testing.T, in input) emit.Case {
 		row = append(row, errClassLatest(err))
 		if err == nil {
 			row = append(row, blockCode(tblIdx, lb))
+			if lb != nil && lb.Block != nil {
+				if hasPrevLatest && lb.Block.Hght < prevLatest {
+					setSig("latest-block-moved-backwards")
+				}
+				prevLatest, hasPrevLatest = lb.Block.Hght, true
+			}
 		} else {
 			row = append(row, 0)
+			if hasPrevLatest {
+				setSig("latest-block-lost")
+			}
 		}
+		served := uint64(0)
 		for _, h := range hs {
 			b, err := ix.GetBlockByHeight(h)
 			if err != nil {
 				row = append(row, 0)
 			} else {
 				row = append(row, blockCode(tblIdx, b))
+				served++
 			}
+		}
+		if served > curW {
+			setSig("more-than-window-heights-served")
 		}
 		for _, n := range idsU {
 			b, err := ix.GetBlock(idOf[n])
@@ -343,6 +363,9 @@ func runInner(t *testing.T, in input) emit.Case {
 				row = append(row, tn+2, uint64(ts), res.Fee)
 			}
 		}
+		if sameWindowRestart && len(rows) > 0 && !equalRows(rows[len(rows)-1], row) {
+			setSig("restart-changed-answers")
+		}
 		rows = append(rows, row)
 	}
 
@@ -363,11 +386,22 @@ func runInner(t *testing.T, in input) emit.Case {
 		ops = "[" + strings.Join(opsS, ";") + "]%N"
 	}
 	coq := emit.App("mk", emit.N(in.W0), blks, ops, nlist(hs), nlist(idsU), nlist(txsU), emit.List("list N", rowS))
-	sig := "window-answers-wrong"
-	if older {
-		sig = "older-block-redelivered-after-newer"
+	if sig == "" {
+		sig = "window-answers-wrong"
 	}
 	return emit.Case{Coq: coq, JSON: mirror{in, hs, idsU, txsU, rows}, Nontrivial: len(in.Ops) >= 3, Kind: in.Kind, Sig: sig}
+}
+
+func equalRows(a, b []uint64) bool {
+	if len(a) != len(b) {
+		return false
+	}
+	for i := range a {
+		if a[i] != b[i] {
+			return false
+		}
+	}
+	return true
 }
 
 // a list inside an already %N-delimited term
@@ -459,6 +493,64 @@ func genRedelivery(r *rand.Rand) input {
 	return in
 }
 
+// one chain, any delivery order: a forward walk (consecutive / gaps) in which older heights are delivered
+// again and again, biased to the window boundary below the highest height so far (top-1, the lowest height
+// inside the window, the window floor, one below the floor), heights skipped by a gap included; restarts anywhere
+func genOlderMix(r *rand.Rand) input {
+	w := pickW(r)
+	in := input{W0: w, Kind: "older-mix"}
+	n := 5 + r.Intn(14)
+	top := uint64(r.Intn(4))
+	in.Ops = append(in.Ops, nfy(top, 0))
+	delivered := []uint64{top}
+	for i := 0; i < n; i++ {
+		switch x := r.Intn(12); {
+		case x < 4: // forward
+			switch r.Intn(6) {
+			case 0:
+				top += w
+			case 1:
+				top += w + 1
+			case 2:
+				top += 2
+			default:
+				top++
+			}
+			if top > maxHeight {
+				return in
+			}
+			in.Ops = append(in.Ops, nfy(top, 0))
+			delivered = append(delivered, top)
+		case x < 10: // older (or the same) height again
+			var d uint64
+			switch r.Intn(7) {
+			case 0:
+				d = 0
+			case 1:
+				d = 1
+			case 2:
+				d = w - 1
+			case 3:
+				d = w
+			case 4:
+				d = w + 1
+			case 5:
+				d = top - delivered[r.Intn(len(delivered))]
+			default:
+				d = uint64(r.Intn(int(w) + 3))
+			}
+			if d > top {
+				d = top
+			}
+			in.Ops = append(in.Ops, nfy(top-d, 0))
+			delivered = append(delivered, top-d)
+		default:
+			in.Ops = append(in.Ops, opT{K: "restart", W: w})
+		}
+	}
+	return in
+}
+
 // arbitrary: any heights, forks, shared transactions (model tie only)
 func genWild(r *rand.Rand) input {
 	w := pickW(r)
@@ -480,62 +572,85 @@ func genWild(r *rand.Rand) input {
 }
 
 func gen(r *rand.Rand) input {
-	switch x := r.Intn(20); {
-	case x < 6:
+	switch x := r.Intn(24); {
+	case x < 5:
 		return genMonotone(r, 4, true, "monotone-restarts")
-	case x < 9:
+	case x < 7:
 		return genMonotone(r, 0, true, "restart-after-every-notify")
-	case x < 13:
+	case x < 10:
 		return genMonotone(r, 3, false, "monotone-window-changes")
-	case x < 15:
+	case x < 12:
 		return genMonotone(r, 1000, true, "monotone-no-restart")
-	case x < 17:
+	case x < 15:
 		return genRedelivery(r)
+	case x < 21:
+		return genOlderMix(r)
 	default:
 		return genWild(r)
 	}
 }
 
-// exhaustive: every sequence of <= depth symbolic ops {next, repeat, gap of W, gap of W+1, restart} for windows 1..maxW
+// exhaustive: every sequence of <= depth symbolic ops {next, repeat top, gap of W, gap of W+1, restart,
+// older: top-1, lowest height inside the window (top-W+1), window floor (top-W)} for windows 1..maxW;
+// heights are relative to the highest height delivered so far
 func enumerate(depth int, maxW uint64, emitF func(input)) {
 	for w := uint64(1); w <= maxW; w++ {
-		var rec func(ops []opT, last uint64, has bool, d int)
-		rec = func(ops []opT, last uint64, has bool, d int) {
+		var rec func(ops []opT, top uint64, has bool, d int)
+		rec = func(ops []opT, top uint64, has bool, d int) {
 			if len(ops) > 0 {
 				emitF(input{W0: w, Ops: append([]opT{}, ops...), Kind: "exhaustive"})
 			}
 			if d == depth {
 				return
 			}
-			for s := 0; s < 5; s++ {
-				h := last
+			for s := 0; s < 8; s++ {
+				h := top
 				switch s {
 				case 0:
 					if has {
-						h = last + 1
+						h = top + 1
 					}
 				case 1:
 					if !has {
 						continue
 					}
 				case 2:
-					h = last + w
+					h = top + w
 					if !has || w == 1 {
 						continue
 					}
 				case 3:
-					h = last + w + 1
+					h = top + w + 1
 				case 4:
 					if !has {
 						continue
 					}
-					rec(append(ops, opT{K: "restart", W: w}), last, has, d+1)
+					rec(append(ops, opT{K: "restart", W: w}), top, has, d+1)
 					continue
+				case 5: // older by one (for W = 1 this is the window floor)
+					if !has || top < 1 {
+						continue
+					}
+					h = top - 1
+				case 6: // lowest height inside the window
+					if !has || w < 3 || top+1 < w {
+						continue
+					}
+					h = top + 1 - w
+				case 7: // window floor
+					if !has || w < 2 || top < w {
+						continue
+					}
+					h = top - w
 				}
 				if h > maxHeight {
 					continue
 				}
-				rec(append(ops, nfy(h, 0)), h, true, d+1)
+				nt := top
+				if !has || h > top {
+					nt = h
+				}
+				rec(append(ops, nfy(h, 0)), nt, true, d+1)
 			}
 		}
 		rec(nil, 0, false, 0)
@@ -575,7 +690,7 @@ func TestDriver(t *testing.T) {
 	}
 	r := env.Rand()
 	if env.Tier == "thorough" {
-		enumerate(5, 3, put)
+		enumerate(4, 3, put)
 	} else {
 		enumerate(3, 3, put)
 	}
